@@ -1,0 +1,13 @@
+//go:build verif
+
+package astwalk
+
+// Contracts for the verification machinery under /verif (comment-only file;
+// compiled only with -tags verif, contains no executable code).
+
+// The protocol between walkers and visitors (all visitor interfaces embed walkerEvents):
+// a visitor that accepts a function promises that the function has a body, which the walkers
+// then traverse without a further check. Every implementation of EnterFunc is checked against it.
+//@ func *.EnterFunc
+//@   prop C01 C13
+//@   ensures @entered-functions-have-bodies result ==> arg0.Body != nil
